@@ -168,8 +168,12 @@ impl FromStr for Move {
         if !matches!(s.len(), 4 | 5) {
             return Err(RawParseError::BadLength);
         }
-        let src = Coord::from_str(&s[0..2]).map_err(RawParseError::BadSrc)?;
-        let dst = Coord::from_str(&s[2..4]).map_err(RawParseError::BadDst)?;
+        // Slice by byte offset only on char boundaries: a multi-byte character makes the string
+        // too short in characters anyway.
+        let src = s.get(0..2).ok_or(RawParseError::BadLength)?;
+        let dst = s.get(2..4).ok_or(RawParseError::BadLength)?;
+        let src = Coord::from_str(src).map_err(RawParseError::BadSrc)?;
+        let dst = Coord::from_str(dst).map_err(RawParseError::BadDst)?;
         let promote = if s.len() == 5 {
             Some(match s.as_bytes()[4] {
                 b'n' => PromotePiece::Knight,
